@@ -21,6 +21,10 @@ pub struct Ntv2Grid {
 
 impl Ntv2Grid {
     pub fn new(buf: &[u8]) -> Result<Self, Error> {
+        // All the reads below assume that at least the overview header is there
+        if buf.len() < HEADER_SIZE {
+            return Err(Error::Invalid("NTv2 file too short".to_string()));
+        }
         let parser = NTv2Parser::new(buf.into());
 
         // NUM_OREC is the NTv2 signature, i.e. "magic bytes"
@@ -57,6 +61,11 @@ impl Ntv2Grid {
                 .entry(parent)
                 .or_insert_with(Vec::new)
                 .push(name);
+        }
+
+        // Lookups start from the root grids, so there must be at least one
+        if !lookup_table.contains_key("NONE") {
+            return Err(Error::Invalid("No root grid in NTv2 file".to_string()));
         }
 
         Ok(Self {
